@@ -13,12 +13,14 @@
    trace (mode 1):  1 tag ...   (0 idx reply | 1 reply | 2 reply | 3 code)
    case (mode 3, one future against scripted input): 3 side lazy pool names rscript input pay
                     (side 1 = dialer, 0 = listener); trace as mode 0
+   case (mode 5, fallback -> main mapping): 5 pool cfg reports   (see Fallback.v)
    case (mode 2, message-based dialer):    2 pool proto fallbacks ops   (op = 0 payload | 1)
    trace (mode 2):  1 (0 msg | 1) then per op: (0 code) for register_response, (1 0|1 msg|2) for
                     propose_next_fallback *)
 From Coq Require Import List NArith Bool.
 From V.common Require Import Wire.
 From V.C03 Require Import Model.
+From V.C03 Require Fallback.
 Import ListNotations.
 Open Scope N_scope.
 
@@ -137,6 +139,9 @@ Fixpoint run_wops (ops : list wop) (proto : name) (fbs : list name) (waiting : b
   end.
 
 Definition run_case (l : list N) : list N :=
+  match l with
+  | 5 :: t => Fallback.run_fallback t
+  | _ =>
   match decode_case l with
   | Some (Case0 c) =>
       let '(s, status) := run_sys (run_fuel l) (c_sched c) false 0 (sys_init c) in
@@ -151,6 +156,7 @@ Definition run_case (l : list N) : list N :=
       | None => [1; 1]
       end
   | None => [0]
+  end
   end.
 
 (* ------------------------------------------------------------------ the oracle *)
@@ -227,26 +233,87 @@ Definition ok0 (c : ncase) (o : obs0) : bool :=
       end
     else true.
 
+Fixpoint occurs (sub l : bytes) : bool :=
+  bytes_eqb (firstn (length sub) l) sub || match l with [] => false | _ :: t => occurs sub t end.
 Fixpoint ends_with (l suffix : bytes) : bool :=
   bytes_eqb l suffix || match l with [] => false | _ :: t => ends_with t suffix end.
-Definition proposal_frame (p : name) : bytes := uvi_enc (len p + 1) ++ p ++ [NL].
+Definition wpart (m : msg) : bytes := uvi_enc (len (encode_msg m)) ++ encode_msg m.
+Definition opt_bytes_eqb (a : option bytes) (b : bytes) : bool :=
+  match a with Some x => bytes_eqb x b | None => false end.
 
-Definition ok1 (ls : list name) (payload : bytes) (tr : list N) : bool :=
+(* the payload is exactly a well-formed proposal of p for a listener in state `hdr` *)
+Definition is_proposal (hdr : bool) (payload : bytes) (p : name) : bool :=
+  wf_name p && opt_bytes_eqb (webrtc_encode (MProto p) (negb hdr)) payload.
+
+(* message-based listener, judged on its output alone:
+   - Accepted i reply: the payload is EXACTLY a well-formed proposal of ls[i] (so nothing may
+     trail it), i is the first position of that name, reply is its confirmation;
+   - Rejected / error / pending: no supported name was properly proposed;
+   - Pending: the payload is the header alone, echoed. *)
+Definition ok1 (hdr : bool) (ls : list name) (payload : bytes) (tr : list N) : bool :=
+  let proposed_supported := existsb (is_proposal hdr payload) ls in
   match tr with
-  | 0 :: i :: _ =>
-      match nth_name ls i with
-      | Some p => ends_with payload (proposal_frame p)
+  | 0 :: i :: rest =>
+      match nth_name ls i, pall p_bytes rest with
+      | Some p, Some reply =>
+          is_proposal hdr payload p &&
+          match find_idx (name_eqb p) ls 0 with Some (j, _) => j =? i | None => false end &&
+          opt_bytes_eqb (webrtc_encode (MProto p) (negb hdr)) reply
+      | _, _ => false
+      end
+  | 1 :: rest =>
+      negb proposed_supported &&
+      match pall p_bytes rest with
+      | Some reply => opt_bytes_eqb (webrtc_encode MNa (negb hdr)) reply
       | None => false
       end
-  | 1 :: _ => negb (existsb (fun p => starts_slash p && ends_with payload (proposal_frame p)) ls)
-              || true (* a name whose frame is a suffix of another's is not excluded *)
-  | 2 :: _ => true
-  | 3 :: _ => true
+  | 2 :: rest =>
+      negb hdr && bytes_eqb payload (wpart MHeader) &&
+      match pall p_bytes rest with Some reply => bytes_eqb reply payload | None => false end
+  | [3; _] => negb proposed_supported && negb (negb hdr && bytes_eqb payload (wpart MHeader))
   | _ => false
   end.
 
-Fixpoint occurs (sub l : bytes) : bool :=
-  bytes_eqb (firstn (length sub) l) sub || match l with [] => false | _ :: t => occurs sub t end.
+(* message-based dialer: the first message is the header + proposal of the main name; a
+   Succeeded / Rejected verdict is only given on a payload that contains the confirmation of
+   the CURRENT name / an `na` (bytes trailing the verdict are discarded with a warning); fallbacks are proposed in order, one per request, without
+   header, and `none left` is reported exactly when the list is exhausted *)
+Fixpoint ok2_ops (ops : list wop) (cur : name) (fbs : list name) (tr : list N) : bool :=
+  match ops with
+  | [] => match tr with [] => true | _ => false end
+  | WReg pl :: t =>
+      match tr with
+      | 0 :: code :: tr' =>
+          (if code =? 1 then occurs (wpart (MProto cur)) pl
+           else if code =? 2 then occurs (wpart MNa) pl else true) &&
+          ok2_ops t cur fbs tr'
+      | _ => false
+      end
+  | WNext :: t =>
+      match fbs, tr with
+      | [], 1 :: 0 :: tr' => ok2_ops t cur [] tr'
+      | f :: fbs', 1 :: 1 :: tr' =>
+          match p_bytes tr' with
+          | Some (m, tr'') => opt_bytes_eqb (propose_msg f false) m && ok2_ops t f fbs' tr''
+          | None => false
+          end
+      | f :: fbs', 1 :: 2 :: tr' =>
+          match propose_msg f false with None => ok2_ops t f fbs' tr' | Some _ => false end
+      | _, _ => false
+      end
+  end.
+
+Definition ok2 (p : name) (fs : list name) (ops : list wop) (tr : list N) : bool :=
+  match tr with
+  | 0 :: tr' =>
+      match p_bytes tr' with
+      | Some (m, tr'') => opt_bytes_eqb (propose_msg p true) m && ok2_ops ops p fs tr''
+      | None => false
+      end
+  | [1] => match propose_msg p true with None => true | Some _ => false end
+  | _ => false
+  end.
+
 (* a lone future may only settle on a name whose confirmation / proposal frame is in its input *)
 Definition ok3 (side lazy : bool) (ns : list name) (input : bytes) (o : obs0) : bool :=
   (o_status o =? 0) &&
@@ -260,6 +327,9 @@ Definition ok3 (side lazy : bool) (ns : list name) (input : bytes) (o : obs0) : 
   else true.
 
 Definition prop_ok (case trace : list N) : bool :=
+  match case with
+  | 5 :: t => Fallback.ok_fallback t trace
+  | _ =>
   match decode_case case, trace with
   | Some (Case0 c), 1 :: body =>
       match pall p_obs0 body with
@@ -271,13 +341,11 @@ Definition prop_ok (case trace : list N) : bool :=
       | Some o => ok3 side lazy ns input o
       | None => false
       end
-  | Some (Case1 h ls pl), 1 :: body => ok1 ls pl body
-  | Some (Case2 p fs ops), 1 :: body =>
-      (* message-based dialer: the per-call results are compared with the model by the diff;
-         the oracle only demands well-formed output *)
-      match body with 0 :: _ => true | 1 :: _ => true | _ => false end
+  | Some (Case1 h ls pl), 1 :: body => ok1 h ls pl body
+  | Some (Case2 p fs ops), 1 :: body => ok2 p fs ops body
   | None, [0] => true
   | _, _ => false
+  end
   end.
 
 Definition known_class (case trace : list N) : N := 0.
